@@ -199,15 +199,19 @@ func c18Body(w *W) {
 		}
 	}
 	// F2: 12 leading / 12 trailing mantissa bits free, all exponents, both signs
-	w.Note("F2: all doubles with only the top 12 mantissa bits free, only the bottom 12 free (rest 0) and bottom 12 free (rest 1), x all 2047 finite exponent fields x both signs")
+	fb := uint(12)
+	if w.Thorough() {
+		fb = 16
+	}
+	w.Note(fmt.Sprintf("F2: all doubles with only the top %d mantissa bits free, only the bottom %d free (rest 0) and bottom %d free (rest 1), x all 2047 finite exponent fields x both signs", fb, fb, fb))
 	c.name = "F2-mantissa-edges"
 	for e := uint64(0); e <= 2046; e++ {
 		w.res.States++
 		if !w.Mine() || w.Expired() {
 			continue
 		}
-		for m := uint64(0); m < 4096; m++ {
-			for _, mant := range []uint64{m << 40, m, m | (1<<52 - 4096)} {
+		for m := uint64(0); m < 1<<fb; m++ {
+			for _, mant := range []uint64{m << (52 - fb), m, m | (1<<52 - 1<<fb)} {
 				bits := e<<52 | mant
 				c.check(math.Float64frombits(bits))
 				c.check(math.Float64frombits(bits | 1<<63))
@@ -217,7 +221,7 @@ func c18Body(w *W) {
 	// F3: decimal lattice
 	digs := 9999
 	if w.Thorough() {
-		digs = 99999
+		digs = 999999
 	}
 	w.Note(fmt.Sprintf("F3: nearest doubles of every decimal d.ddd x 10^e, mantissa 1..%d, e in -330..310", digs))
 	c.name = "F3-decimal-lattice"
